@@ -28,8 +28,19 @@ def load_schema_xml(xml, url=None):
     return ZConfig.loadSchemaFile(io.StringIO(xml), url)
 
 
+_SHARED = {"loader": None, "n": 0}
+
+
 def load_schema(ast):
+    """Every other schema is loaded through one long-lived SchemaLoader from a file object
+    without a URL (two different schemas served by one loader stay two different schemas)."""
     xml = gen.render_schema(ast)
+    _SHARED["n"] += 1
+    if _SHARED["n"] % 2:
+        if _SHARED["loader"] is None:
+            import ZConfig.loader
+            _SHARED["loader"] = ZConfig.loader.SchemaLoader()
+        return _SHARED["loader"].loadFile(io.StringIO(xml)), xml
     return load_schema_xml(xml), xml
 
 
